@@ -366,10 +366,15 @@ func genValue(t *rapid.T, alpha []string) string {
 	return soup(t, alpha, 1, 4)
 }
 
-func genRoundTrip(t *rapid.T, p string) *RoundTrip {
+func genRoundTrip(t *rapid.T, p string, long bool) *RoundTrip {
 	c := &RoundTrip{Pattern: p}
 	for _, w := range ref.Wildcards(p) {
 		switch {
+		case long && w.InHost:
+			// the limits on hostnames are limits on patterns: what a wildcard label captures is not counted
+			c.Values = append(c.Values, strings.Repeat("v", gen.Pick(t, []int{1, 19, 40, 63, 100}, "hostvaluelen")))
+		case long && !w.CatchAll:
+			c.Values = append(c.Values, strings.Repeat("w", gen.Pick(t, []int{1, 64, 130, 300}, "valuelen")))
 		case w.InHost:
 			c.Values = append(c.Values, genValue(t, hostValueAlphabet))
 		case w.CatchAll:
@@ -392,18 +397,33 @@ func genRoundTrip(t *rapid.T, p string) *RoundTrip {
 func TestRoundTrip(t *testing.T) {
 	rapid.Check(t, func(t *rapid.T) {
 		var p string
-		if rapid.Bool().Draw(t, "soup") {
+		long := false
+		switch gen.U(t, 5, "source") {
+		case 0, 1:
 			p = soup(t, gramTokens, 1, 8)
 			if p == "" || (p[0] != '/' && rapid.Bool().Draw(t, "root")) {
 				p = "/" + p
 			}
-		} else {
+		case 2, 3:
 			p = gen.Pattern(t, nil, 1, false)
+		default:
+			// hostnames near the 255-byte limit with wildcard labels, long values
+			long = true
+			var labs []string
+			for i, n := 0, gen.IntR(t, 2, 6, "nlabels"); i < n; i++ {
+				if gen.Chance(t, 1, 3, "wildlabel") {
+					labs = append(labs, fmt.Sprintf("{h%d}", i))
+				} else {
+					labs = append(labs, strings.Repeat("a", gen.Pick(t, []int{1, 30, 60, 63}, "lablen")))
+				}
+			}
+			p = strings.Join(labs, ".") + gen.Path(t, 3)
+			stats.Class("roundtrip:long-host-shape")
 		}
 		if !ref.ValidPattern(p, 65535, 65535) || outOfDomain(p) {
 			t.Skip("not a valid pattern")
 		}
-		c := genRoundTrip(t, p)
+		c := genRoundTrip(t, p, long)
 		defer stats.Guard("roundtrip", func() any { return c })()
 		stats.Eval()
 		stats.Sample(c)
